@@ -162,6 +162,17 @@ def run(ch, config, res):
             op = ["add", "update", "replace", "disable", "enable", "move", "remove", "restart", "readback", "stash", "unstash"][k]
             n = NAMES[wl.int("name", len(NAMES))]
             label = "op %d %s(%s)" % (i, op, n)
+            if wl.flag("refused_first", 1, 6):
+                # before the operation proper, an add with a description the factory refuses (some are refused only after an
+                # extension was noted): as a step of the history it must not disturb what is generated afterwards
+                bconds_, bacts_, bmt_ = E.bad_definition(wl, "baddef")
+                bn = NAMES[wl.int("badname", len(NAMES))]
+                rr = E.classify(lambda: (fs.addfilter(bn, bconds_, bacts_, bmt_), True)[1])
+                E.classify(lambda: (fsb.addfilter(bn, bconds_, bacts_, bmt_), True)[1])
+                res.count("refused_builds")
+                if rr[0] == "ok":
+                    res.count("ended:unsupported-description-accepted")
+                    break
             if op in ("add", "update"):
                 struct, values = E.gen_definition(wl, "def", "c06")
                 conds, acts, mt = E.fill(struct, values)
